@@ -178,6 +178,13 @@ def fixed_cases():
         for i in range(0, 20, 1):
             s = [("M",)] * 12 + [("S", SIG[sg])] + [("M",)] * i + [("Xk", 0, 9), ("C",)] + [("M",)] * 5
             cases.append((cfg_of(2, 2), s, "signal+death"))
+    # a SIGTERM swallowed by a worker that had not installed its handlers yet (between fork and Worker.init_signals the child
+    # runs the master's handler, which only queues the signal): the surplus worker must be asked again on a later pass.
+    # Oracle only - the kernel of Model/Arbiter.v never loses a signal.
+    for nw, sg in ((3, "TTOU"), (2, "TTOU"), (2, "HUP")):
+        for i in (3, 6, 10, 16):
+            s = [("M",)] * 14 + [("S", SIG[sg])] + [("M",)] * i + [("LTk", 0)] + [("M",)] * 6 + [("LTk", 0)] + [("M",)] * 12
+            cases.append((cfg_of(nw, 2), s, "lost-term"))
     # the queue bound: more signals than the queue holds
     cases.append((cfg_of(1, 2), [("M",)] * 8 + [("S", SIG["TTIN"])] * 8 + [("M",)] * 40, "queue-bound"))
     cases.append((cfg_of(3, 2), [("M",)] * 14 + [("S", SIG["TTOU"])] * 7 + [("M",)] * 40, "queue-bound"))
@@ -265,7 +272,8 @@ def run(ctx):
         for l in script:
             if l[0] != "M":
                 ctx.hist("label", l[0] if l[0] != "S" else "S%d" % l[1])
-        corr.append((model_case(cfg, w), L.flat(w.trace), (cfg, script)))
+        if tag != "lost-term":
+            corr.append((model_case(cfg, w), L.flat(w.trace), (cfg, script)))
         fs = judge(cfg, w)
         if fs:
             failures.append((cfg, script, fs))
